@@ -290,36 +290,48 @@ const VARIANT_SHAPES: &[(&str, bool)] = &[
     ("A", false), ("A(u32)", false), ("A()", true), ("A(u32, u32)", true), ("A {}", true), ("A { x: u32 }", true), ("A(&'s str)", false),
 ];
 
-/// Specimens built *as members* of a must-reject category, as raw source text.
-fn category_specimen(rng: &mut Rng, i: usize) -> (String, &'static str) {
-    match i % 3 {
-        0 => {
-            let (shape, must_reject) = *rng.pick(VARIANT_SHAPES);
-            let lt = if shape.contains("'s") { "<'s>" } else { "" };
-            let cb = if shape.contains("u32)") && !shape.contains(',') { ", |_| 1u32" } else { "" };
-            (format!("#[derive(Logos)]\nenum T{lt} {{\n    #[token(\"a\"{cb})]\n    {shape},\n    #[token(\"b\")]\n    B,\n}}\n"), if must_reject { "bad-variant-shape" } else { "ok" })
-        }
-        1 => {
-            // duplicated / malformed arguments
-            let args = rng.pick_str(&[
-                "\"a\", callback = f, callback = g", "\"a\", priority = 1, priority = 2", "\"a\", f, g", "\"a\", priority = x", "\"a\", priority", "\"a\", ignore(caseless)",
-                "\"a\", ignore()", "\"a\", ignore(case, case)", "\"a\", allow_greedy = maybe", "\"a\", allow_greedy = true, allow_greedy = false", "\"a\", callback", "\"a\", unknown = 3",
-                "", "1", "\"a\" \"b\"", "\"a\",, f", "b'a'", "\"a\", |x y| 1", "\"a\", |lex|", "\"a\", ignore(ascii_case)", "\"a\", callback = |a, b| 1", "'a'", "\"a\", priority = -1",
-                "\"a\", priority = 1.5", "\"a\", (f)", "\"a\", callback = f callback = g", "\"a\", ignore(case) priority = 3",
-            ]);
-            let attr = rng.pick_str(&["token", "regex"]);
-            (format!("#[derive(Logos)]\nenum T {{\n    #[{attr}({args})]\n    A,\n    #[token(\"b\")]\n    B,\n}}\n"), "malformed")
-        }
-        _ => {
-            let item = rng.pick_str(&[
-                "error = E, error = F", "error(E, callback = f, callback = g)", "error(E, f, g)", "error(E, callback)", "error()", "error", "extras = X, extras = Y", "utf8 = false, utf8 = true",
-                "utf8 = maybe", "utf8", "skip", "skip 1", "skip(\"a\", callback = f, callback = g)", "skip()", "subpattern", "subpattern x", "subpattern x = 1", "subpattern 1 = \"a\"",
-                "crate", "crate = ", "source = str", "export_dir = 1", "type T", "type T = ", "unknown", "unknown = 1", "lifetime = 'a, lifetime = 'b", "\"literal\"", "skip(\"a\") priority = 3",
-                "subpattern a = \"x\", subpattern a = \"y\"", "subpattern a-b = \"x\"", "error(E, callback = |a, b| 1)",
-            ]);
-            (format!("#[derive(Logos)]\n#[logos({item})]\nenum T {{\n    #[token(\"a\")]\n    A,\n}}\n"), "malformed")
-        }
+const MALFORMED_ARGS: &[&str] = &[
+    "\"a\", callback = f, callback = g", "\"a\", priority = 1, priority = 2", "\"a\", f, g", "\"a\", priority = x", "\"a\", priority", "\"a\", ignore(caseless)",
+    "\"a\", ignore()", "\"a\", ignore(case, case)", "\"a\", allow_greedy = maybe", "\"a\", allow_greedy = true, allow_greedy = false", "\"a\", callback", "\"a\", unknown = 3",
+    "", "1", "\"a\" \"b\"", "\"a\",, f", "b'a'", "\"a\", |x y| 1", "\"a\", |lex|", "\"a\", ignore(ascii_case)", "\"a\", callback = |a, b| 1", "'a'", "\"a\", priority = -1",
+    "\"a\", priority = 1.5", "\"a\", (f)", "\"a\", callback = f callback = g", "\"a\", ignore(case) priority = 3", "\"a\", f, callback = g", "\"a\", callback = f, priority = 2, callback = g",
+];
+
+const MALFORMED_ITEMS: &[&str] = &[
+    "error = E, error = F", "error(E, callback = f, callback = g)", "error(E, f, g)", "error(E, callback)", "error()", "error", "extras = X, extras = Y", "utf8 = false, utf8 = true",
+    "utf8 = maybe", "utf8", "skip", "skip 1", "skip(\"a\", callback = f, callback = g)", "skip()", "subpattern", "subpattern x", "subpattern x = 1", "subpattern 1 = \"a\"",
+    "crate", "crate = ", "source = str", "export_dir = 1", "type T", "type T = ", "unknown", "unknown = 1", "lifetime = 'a, lifetime = 'b", "\"literal\"", "skip(\"a\") priority = 3",
+    "subpattern a = \"x\", subpattern a = \"y\"", "subpattern a-b = \"x\"", "error(E, callback = |a, b| 1)", "error(E, f, callback = g)", "skip(\"a\", f, callback = g)",
+];
+
+/// Number of specimens in the exhaustive enumeration of `category_specimen_nth`.
+pub fn category_specimen_count() -> usize {
+    VARIANT_SHAPES.len() + 2 * MALFORMED_ARGS.len() + MALFORMED_ITEMS.len()
+}
+
+/// The n-th specimen of the fixed list (every variant shape, every malformed argument list in
+/// both #[token] and #[regex], every malformed #[logos] item).
+pub fn category_specimen_nth(n: usize) -> (String, &'static str) {
+    let n = n % category_specimen_count();
+    if n < VARIANT_SHAPES.len() {
+        let (shape, must_reject) = VARIANT_SHAPES[n];
+        let lt = if shape.contains("'s") { "<'s>" } else { "" };
+        let cb = if shape.contains("u32)") && !shape.contains(',') { ", |_| 1u32" } else { "" };
+        return (format!("#[derive(Logos)]\nenum T{lt} {{\n    #[token(\"a\"{cb})]\n    {shape},\n    #[token(\"b\")]\n    B,\n}}\n"), if must_reject { "bad-variant-shape" } else { "ok" });
     }
+    let n = n - VARIANT_SHAPES.len();
+    if n < 2 * MALFORMED_ARGS.len() {
+        let args = MALFORMED_ARGS[n / 2];
+        let attr = if n % 2 == 0 { "token" } else { "regex" };
+        return (format!("#[derive(Logos)]\nenum T {{\n    #[{attr}({args})]\n    A,\n    #[token(\"b\")]\n    B,\n}}\n"), "malformed");
+    }
+    let item = MALFORMED_ITEMS[n - 2 * MALFORMED_ARGS.len()];
+    (format!("#[derive(Logos)]\n#[logos({item})]\nenum T {{\n    #[token(\"a\")]\n    A,\n}}\n"), "malformed")
+}
+
+/// Specimens built *as members* of a must-reject category, as raw source text.
+fn category_specimen(rng: &mut Rng, _i: usize) -> (String, &'static str) {
+    category_specimen_nth(rng.below(category_specimen_count()))
 }
 
 /// Token-level mutations inside the logos attributes of a valid definition source.
@@ -481,19 +493,26 @@ pub fn fuzz(seed: u64, count: usize, threads: usize) -> Value {
 pub fn rsample_sources(seed: u64, count: usize) -> Vec<(String, String, Vec<String>, bool)> {
     let mut out = vec![];
     let mut i = 0usize;
-    while out.len() < count {
+    let fixed = category_specimen_count();
+    while out.len() < count.max(fixed) {
         let mut rng = Rng::derive(seed ^ 0x4519, i as u64);
         i += 1;
-        let (src, clean) = match i % 4 {
-            0 => (category_specimen(&mut rng, i / 4).0, true),
-            1 => {
-                let base = perm_base(seed, i);
-                (mutate_source(&base.render(), &mut rng), false)
-            }
-            2 => (perm_base(seed, i).render(), true),
-            _ => {
-                let (def, _) = gen::f8_reject(&mut rng, "T");
-                (def.render(), true)
+        let (src, clean) = if i <= fixed {
+            // malformed argument lists may legitimately be read as (undefined) callback paths: only
+            // the no-panic and diagnostics-surface checks apply to them
+            let (src, cat) = category_specimen_nth(i - 1);
+            (src, cat != "malformed")
+        } else {
+            match i % 3 {
+                0 => {
+                    let base = perm_base(seed, i);
+                    (mutate_source(&base.render(), &mut rng), false)
+                }
+                1 => (perm_base(seed, i).render(), true),
+                _ => {
+                    let (def, _) = gen::f8_reject(&mut rng, "T");
+                    (def.render(), true)
+                }
             }
         };
         let a = analyze::run_generate_source(&src);
@@ -508,14 +527,23 @@ pub fn rsample_sources(seed: u64, count: usize) -> Vec<(String, String, Vec<Stri
     out
 }
 
-/// Write a crate with one module per source, to be compiled by the stable toolchain.
+/// Write two crates (library-accepted sources / all others) with one module per source, to be
+/// compiled by the stable toolchain. Separate crates so that expansion-time errors of rejected
+/// definitions cannot hide type errors in accepted ones.
 pub fn rsample_write(seed: u64, count: usize, dir: &std::path::Path) -> Value {
     let sources = rsample_sources(seed, count);
-    std::fs::create_dir_all(dir.join("src")).unwrap();
-    let mut lib = String::from("#![allow(dead_code, unused_imports, unused_variables, non_camel_case_types, non_snake_case, clippy::all)]\n");
     let mut index = vec![];
+    let mut libs = [String::new(), String::new()];
+    for l in libs.iter_mut() {
+        l.push_str("#![allow(dead_code, unused_imports, unused_variables, non_camel_case_types, non_snake_case, clippy::all)]\n");
+    }
+    for sub in ["acc", "rej"] {
+        std::fs::create_dir_all(dir.join(sub).join("src")).unwrap();
+    }
     for (i, (src, kind, msgs, clean)) in sources.iter().enumerate() {
-        lib.push_str(&format!("mod m{i};\n"));
+        let which = if kind == "accepted" { 0 } else { 1 };
+        let sub = ["acc", "rej"][which];
+        libs[which].push_str(&format!("mod m{i};\n"));
         let mut m = String::from("use logos::{Lexer, Logos, Skip, Filter, FilterResult};\n");
         m.push_str("type VErr = ();\ntype VExtras = ();\ntype E = ();\ntype F = ();\ntype X = ();\ntype Y = ();\n");
         m.push_str("fn f<'s, T: Logos<'s>>(_lex: &mut Lexer<'s, T>) {}\nfn g<'s, T: Logos<'s>>(_lex: &mut Lexer<'s, T>) {}\n");
@@ -545,17 +573,17 @@ pub fn rsample_write(seed: u64, count: usize, dir: &std::path::Path) -> Value {
                 m.push_str(&format!("fn {n}<'s, T: Logos<'s>>(_lex: &mut Lexer<'s, T>) {{}}\n"));
             }
         }
-        let header_lines = m.lines().count();
         m.push_str(src);
-        std::fs::write(dir.join(format!("src/m{i}.rs")), m).unwrap();
-        index.push(json!({"module": i, "library_outcome": kind, "library_messages": msgs, "clean": clean, "header_lines": header_lines, "source": src}));
+        std::fs::write(dir.join(sub).join(format!("src/m{i}.rs")), m).unwrap();
+        index.push(json!({"module": i, "crate": sub, "library_outcome": kind, "library_messages": msgs, "clean": clean, "source": src}));
     }
-    std::fs::write(dir.join("src/lib.rs"), lib).unwrap();
-    std::fs::write(dir.join("Cargo.toml"), "[package]\nname = \"rsample\"\nversion = \"0.0.0\"\nedition = \"2021\"\n\n[workspace]\n\n[dependencies]\nlogos = { path = \"/repo\" }\n\n[profile.dev]\ndebug = 0\nincremental = false\n\n[profile.dev.build-override]\nopt-level = 2\n").unwrap();
-    std::fs::create_dir_all(dir.join(".cargo")).unwrap();
-    std::fs::write(dir.join(".cargo/config.toml"), "[net]\noffline = true\n").unwrap();
-    if !dir.join("Cargo.lock").exists() {
-        let _ = std::fs::copy("/verif/harness/Cargo.lock", dir.join("Cargo.lock"));
+    for (which, sub) in ["acc", "rej"].iter().enumerate() {
+        let d = dir.join(sub);
+        std::fs::write(d.join("src/lib.rs"), &libs[which]).unwrap();
+        std::fs::write(d.join("Cargo.toml"), format!("[package]\nname = \"rsample_{sub}\"\nversion = \"0.0.0\"\nedition = \"2021\"\n\n[workspace]\n\n[dependencies]\nlogos = {{ path = \"/repo\" }}\n\n[profile.dev]\ndebug = 0\nincremental = false\n\n[profile.dev.build-override]\nopt-level = 2\n")).unwrap();
+        std::fs::create_dir_all(d.join(".cargo")).unwrap();
+        std::fs::write(d.join(".cargo/config.toml"), "[net]\noffline = true\n").unwrap();
+        let _ = std::fs::copy("/verif/harness/Cargo.lock", d.join("Cargo.lock"));
     }
     let v = json!({"modules": index});
     std::fs::write(dir.join("index.json"), serde_json::to_string(&v).unwrap()).unwrap();
